@@ -28,14 +28,15 @@ def log(*a):
 
 
 class Ctx:
-    def __init__(self, prop, tier, seed, keep=False):
+    def __init__(self, prop, tier, seed, keep=False, purge=True):
         self.prop, self.tier, self.seed, self.keep = prop, tier, seed, keep
         self.t0 = time.time()
         self.work = os.path.join(RUNS, "%s-%s-%d" % (prop, tier, os.getpid()))
         shutil.rmtree(self.work, ignore_errors=True)
         os.makedirs(self.work)
-        for old in glob.glob(os.path.join(RUNS, "replay", prop + "-*.json")):
-            os.remove(old)
+        if purge:
+            for old in glob.glob(os.path.join(RUNS, "replay", prop + "-*.json")):
+                os.remove(old)
         self.specdir = os.path.join(self.work, "spec")
         shutil.copytree(os.path.join(VERIF, "spec"), self.specdir)
         self.states = 0          # distinct states over all TLC runs of this invocation
